@@ -589,7 +589,9 @@ func (s *swapBackend) cur() *backend {
 	defer s.mu.Unlock()
 	return s.be
 }
-func (s *swapBackend) Get(ctx context.Context, d digest.Digest) buffer.Buffer { return s.cur().Get(ctx, d) }
+func (s *swapBackend) Get(ctx context.Context, d digest.Digest) buffer.Buffer {
+	return s.cur().Get(ctx, d)
+}
 func (s *swapBackend) GetFromComposite(ctx context.Context, p, c digest.Digest, sl slicing.BlobSlicer) buffer.Buffer {
 	panic("unused")
 }
